@@ -600,3 +600,133 @@ func checkWaitGroupBalance(p *core.Prog, r *core.Report, rule string, fns []*ssa
 	}
 	return n
 }
+
+// checkFieldsUnderMutex: in the package rel, outside constructors, every access to one of the named fields of
+// Service — the field word and the collection held in it — happens with the named mutex of the same Service held
+// (read lock suffices for reads). Returns the number of accesses examined.
+func checkFieldsUnderMutex(p *core.Prog, r *core.Report, la *core.LockAnalysis, rule, rel string, fields []string, mutex, consequence string) int {
+	ctor := p.ConstructorPhase()
+	owner := rel + ".Service"
+	mu := core.FieldID{Owner: owner, Name: mutex}
+	want := map[string]bool{}
+	for _, f := range fields {
+		want[f] = true
+	}
+	n := 0
+	for _, fn := range p.FuncsIn(rel) {
+		if ctor[fn] {
+			continue
+		}
+		held := la.HeldAt(fn)
+		entry := la.EntryHeld(fn)
+		for _, a := range core.FieldAccesses(fn) {
+			if a.Field.Owner != owner || !want[a.Field.Name] {
+				continue
+			}
+			n++
+			ok := held[a.Instr].HasField(mu, a.Write) || entry.HasField(mu, a.Write)
+			r.Check(ok, rule, fmt.Sprintf("%s|%s|%s#%d|under-%s", core.FnKey(fn), a.Field.Name, a.Kind, n, mutex), p.Pos(a.Instr.Pos()), a.Kind+" of "+a.Field.Name+" under "+mutex,
+				fmt.Sprintf("%s of %s in %s without %s held: %s", a.Kind, a.Field.String(), core.FnKey(fn), mutex, consequence))
+		}
+	}
+	return n
+}
+
+// specKeyOf traces a value back to the chain-specification key it was read under: spec["KEY"] (through the type
+// assertion and conversions), or helper(spec, "KEY") for a helper that takes the spec map and a constant name.
+func specKeyOf(v ssa.Value, depth int) (string, bool) {
+	if depth > 8 || v == nil {
+		return "", false
+	}
+	isSpecMap := func(t types.Type) bool {
+		m, ok := t.Underlying().(*types.Map)
+		if !ok {
+			return false
+		}
+		b, ok := m.Key().Underlying().(*types.Basic)
+		if !ok || b.Kind() != types.String {
+			return false
+		}
+		_, isIface := m.Elem().Underlying().(*types.Interface)
+		return isIface
+	}
+	switch x := v.(type) {
+	case *ssa.Extract:
+		return specKeyOf(x.Tuple, depth+1)
+	case *ssa.TypeAssert:
+		return specKeyOf(x.X, depth+1)
+	case *ssa.Convert:
+		return specKeyOf(x.X, depth+1)
+	case *ssa.ChangeType:
+		return specKeyOf(x.X, depth+1)
+	case *ssa.BinOp:
+		if k, ok := specKeyOf(x.X, depth+1); ok {
+			return k, true
+		}
+		return specKeyOf(x.Y, depth+1)
+	case *ssa.Lookup:
+		if isSpecMap(x.X.Type()) {
+			if k, ok := constString(x.Index); ok {
+				return k, true
+			}
+			// the key held in a local (an inlined helper's parameter)
+			if ph, ok := x.Index.(*ssa.Phi); ok {
+				key := ""
+				for _, e := range ph.Edges {
+					if k, ok := constString(e); ok {
+						if key != "" && key != k {
+							return "", false
+						}
+						key = k
+					}
+				}
+				return key, key != ""
+			}
+		}
+	case *ssa.Phi:
+		key := ""
+		for _, e := range x.Edges {
+			if c, isConst := e.(*ssa.Const); isConst && c.Value != nil && c.Value.String() == "0" || core.IsNilConst(e) {
+				continue
+			}
+			k, ok := specKeyOf(e, depth+1)
+			if !ok || key != "" && key != k {
+				return "", false
+			}
+			key = k
+		}
+		return key, key != ""
+	case *ssa.UnOp:
+		// a local variable assigned once
+		if a, ok := x.X.(*ssa.Alloc); ok && a.Referrers() != nil {
+			var stored ssa.Value
+			n := 0
+			for _, ref := range *a.Referrers() {
+				if st, ok := ref.(*ssa.Store); ok && st.Addr == ssa.Value(a) {
+					stored = st.Val
+					n++
+				}
+			}
+			if n == 1 {
+				return specKeyOf(stored, depth+1)
+			}
+		}
+	case *ssa.Call:
+		hasSpec := false
+		key := ""
+		for _, a := range x.Call.Args {
+			if isSpecMap(a.Type()) {
+				hasSpec = true
+			}
+			if k, ok := constString(a); ok && k == strings.ToUpper(k) && strings.Contains(k, "_") {
+				key = k
+			}
+		}
+		if hasSpec && key != "" {
+			return key, true
+		}
+	}
+	return "", false
+}
+
+func normName(s string) string { return strings.ToLower(strings.ReplaceAll(s, "_", "")) }
